@@ -76,7 +76,7 @@ LCS = ["Water", "", "PowerSuck", "DMSO free dispense", "Water, wet contact", "Et
        # free text may contain the words the commands themselves are made of
        "Serum Aspirate slow", "Dispense_Z-max", "Wash Aspirate Dispense", "B;Aspirate"[2:] + " 2x"]
 ANY = {"__tip__": "Any"}
-_ID = re.compile(r"^([A-Z])([0-9]{2})$")
+_ID = re.compile(r"^([A-Z])([0-9]{2}|[1-9][0-9]{2,})$")
 _ROWS = "ABCDEFGHIJKLMNOPQRSTUVWXYZ"
 
 # evo_wash: documented ranges (name -> (low, high, kind))
@@ -222,6 +222,10 @@ def gen_case(rng, tier, index):
     if kind == "plate":
         rows = rng.choice([1, 2, 3, 4, 6, 8, 8, 8, 12, 16, 16, rng.randint(1, 16)])
         cols = rng.choice([1, 2, 6, 12, 12, 24, rng.randint(1, 24)])
+        if rng.random() < 0.05:
+            # a strip / carrier with more than 100 columns (four-character well IDs; the selection header still has two
+            # hex digits for up to 255 columns)
+            rows, cols = rng.choice([1, 2, 4, 8]), rng.choice([101, 120, 200, 230, 255])
     else:
         rows = rng.choice([1, 2, 4, 8, 8, 8, 16, rng.randint(1, 16)])
         cols = rng.choice([1, 1, 2, 3, 4])
@@ -258,6 +262,10 @@ def gen_case(rng, tier, index):
                 rcs.append((rng.randrange(rows), col))
                 k = 2
             others = [c for c in range(cols) if c != col]
+            if cols > 100 and rng.random() < 0.6:
+                # the other column reads alike in its last two digits (column 1 and column 101)
+                alike = [c for c in others if (c - col) % 100 == 0]
+                others = alike or others
             j = rng.randrange(k)
             rcs[j] = (rcs[j][0], rng.choice(others))
             for i in range(k):
